@@ -123,7 +123,7 @@ def check(ctx):
     thorough = ctx.tier == "thorough"
     ctx.rule = ("every parsing entry point (classification in both radiotap modes, all nine management parsers + data + EAPOL recognition/message/extraction on every classified frame, radiotap info, radiotap rssi, tag iterator, CRC/FCS/verify) on: "
                 "ALL byte strings of length 0..2 in both modes (exhaustive)%s; structured base frames (every generator's output, crafted frames of all nine parsable subtypes with RSN/WPA/WPS elements, EAPOL QoS/non-QoS, control; bare, behind three radiotap header shapes, with computed FCS) "
-                "with EVERY truncation and every byte position set to 00/FF/7F/80/+1/-1 (%s); the parse corpora of C02/C04/C06/C08/C09/C12 (sampled); random strings up to 4096 bytes; each input in an exact-size heap block under ASan+UBSan, compared with the model "
+                "with EVERY truncation and every byte position set to 00/FF/7F/80/+1/-1 (%s); the parse corpora of C02/C04/C06/C08/C09/C12 (sampled); random strings up to 4096 bytes; a size ladder (frame bodies of 255 .. 70 000 octets around every 8- to 16-bit width and the 802.11 length limits, as data, EAPOL-shaped and management frames of maximal elements); each input in an exact-size heap block under ASan+UBSan, compared with the model "
                 "(a model fault = an out-of-bounds access); a memcheck pass on the -O0 build; %sreturn values must be 0 or negative; distinct = (op, output)"
                 % (", ALL strings of length 3 (C only, in-harness sweep)" if thorough else "", "all positions" if thorough else "all positions of frames up to 120 bytes, 120 positions otherwise",
                    "libFuzzer (clang, ASan+UBSan) over all entry points; " if thorough else ""))
@@ -241,6 +241,8 @@ def check(ctx):
     ctx.coverage["rssi_short_buffers"] = {"lines": len(sl), "sanitizer_reports": ncr}
     ctx.oblige("correspondence", "S-safe/rssi-short: model faults exactly where the sanitizer reports (or the read stays unreported)", all(
         (not (c or "").startswith("CRASH")) or fw.split_model(m)[0].startswith("FAULT") for c, m in zip(co, mo)), "")
+    # ---- long frames: sizes at which a cap, a length field or a narrowed integer could break
+    fw.run_suite(ctx, exe, "S-safe/size-ladder", frames.size_ladder(rnd, ctx.tier), "parsing of long frames")
     # ---- memcheck
     vg = rnd.sample(lines, min(len(lines), 6000 if thorough else 500)) + rnd.sample(short, 300) + rnd.sample(rl, min(len(rl), 2000 if thorough else 200))
     valgrind_pass(ctx, vg, "S-safe/memcheck")
